@@ -136,6 +136,8 @@ def kinds_for(func: str):
         return ["SimpleCache"]
     if "full_cache" in func:
         return ["MemoryFullCache[not shared]", "MemoryFullCache[shared]"]
+    if "base_discipline" in func:
+        return ["SimpleCache"]  # the discipline contracts (c05_discipline.py) are stated for the default SimpleCache policy
     return ["SimpleCache", "MemoryFullCache[not shared]", "MemoryFullCache[shared]"]
 
 
